@@ -37,7 +37,7 @@ def run(c):
     if thorough:
         cfgA = cfgA.replace("MaxSize = 5", "MaxSize = 6").replace("MaxLo = 2", "MaxLo = 3")
         open(os.path.join(sd, "MC_C20.cfg"), "w").write(cfgA)
-    c.stage_a(sd, "MC_C20", "MC_C20", timeout=1500)
+    c.stage_a(sd, "MC_C20", "MC_C20", timeout=1500, coverage=True)
     # ---- stage B1: all edges
     cfgG = open(os.path.join(sd, "MC_C20_gen.cfg")).read()
     if thorough:
